@@ -75,6 +75,17 @@ EXTRA={
             '//@ assertbefore "uk.elements = 1" [C03] taken: item == ite(srcLeft, gSrcHead, gSrcTail) && item.owner == nil && element == item.element',
             '//@ ensures [C11] wake.one: gMoved ==> gWakeRequested == 1 && gWakeKey == destKeyName'],
  'scan': ['//@ requires free tablesize: dictSized(dsc.ds.data)', '//@ touches C17'],
+ 'lpos': ['//@ ghostbefore "pos := 0" : gMax0 = maxLength',
+            '//@ ghostbefore "pos := list.count - 1" : gMax0 = maxLength',
+            '//@ ghostbefore "pos := 0" : gRank0 = rank',
+            '//@ ghostbefore "pos := list.count - 1" : gRank0 = rank',
+            # MAXLEN bounds the number of elements compared, whatever RANK and COUNT are: every element looked at uses one unit
+            '//@ loop "for item := list.head" invariant [C03] window.forward: pos >= 0 && pos + maxLength == gMax0',
+            '//@ loop "for item := list.tail" invariant [C03] window.backward: pos <= list.count - 1 && (list.count - 1 - pos) + maxLength == gMax0',
+            # reported positions and skipped matches account for the rank: a position is only reported once the rank has been used up
+            '//@ loop "for item := list.head" invariant [C03] rank.forward: rank >= 0 && rank <= gRank0 && (len(matches) > 0 ==> rank == 0)',
+            '//@ loop "for item := list.tail" invariant [C03] rank.backward: rank >= 0 && rank <= gRank0 && (len(matches) > 0 ==> rank == 0)',
+            '//@ requires [C13] rank.norm: rank >= 0 && count >= 0 && maxLength >= 0'],
  'restore': ['//@ ensures internal [C06,C13] restored.string: output.data == rstrOK ==> mutated && flagHasOne(newSk.flags, FLAG_KEY_TYPE_STRING) && istype(newSk.payload, []byte) && len(unbox(newSk.payload, []byte)) == len(serializedData) - 14',
             '//@ ensures [C06] refused.inert: output.data != rstrOK ==> !mutated'],
  'hashTableScan': ['//@ touches C17'],
